@@ -355,15 +355,15 @@ theorem extractJoinBlock_ok (lines : Lines) (start indent : Nat) : Ok (extractJo
   have := joinParse_ok start 0
   repeat (first | with_reducible exact this _ | ok_step)
 
-theorem headerLine_ok (line : Line) (i : Nat) (s : PSt) : Ok (headerLine line i s) T := by
+theorem headerLine_ok (O : PyOracle) (line : Line) (i : Nat) (s : PSt) : Ok (headerLine O line i s) T := by
   unfold headerLine
   have h1 : ∀ h, Ok (liftPy "extract_passage_params" (extractPassageParams h)) T := fun h => by
     obtain ⟨r, hr⟩ := extractPassageParams_ok h; exact Ok.liftPy _ _ ⟨r, hr, trivial⟩
   have h2 : ∀ n, Ok (liftPy "validate_passage_name" (validatePassageName isAsciiAlnum isAsciiDigit n)) T := fun n => by
     obtain ⟨r, hr⟩ := validatePassageName_ok isAsciiAlnum isAsciiDigit n; exact Ok.liftPy _ _ ⟨r, hr, trivial⟩
-  have h3 : ∀ p, Ok (liftPy "parse_passage_params" (parsePassageParams p)) T := fun p => by
-    obtain ⟨r, hr⟩ := parsePassageParams_ok p; exact Ok.liftPy _ _ ⟨r, hr, trivial⟩
-  repeat (first | with_reducible exact h1 _ | with_reducible exact h2 _ | with_reducible exact h3 _ | ok_step)
+  have h3 : ∀ ex p, Ok (liftPy "parse_passage_params" (parsePassageParams ex p)) T := fun ex p => by
+    obtain ⟨r, hr⟩ := parsePassageParams_ok ex p; exact Ok.liftPy _ _ ⟨r, hr, trivial⟩
+  repeat (first | with_reducible exact h1 _ | with_reducible exact h2 _ | with_reducible exact h3 _ _ | ok_step)
 
 theorem topChoice_ok (lines : Lines) (i : Nat) (line : Line) (sec : Nat) : Ok (topChoice lines i line sec) T := by
   unfold topChoice
@@ -387,7 +387,7 @@ theorem coreLoop_ok (O : PyOracle) (lines : Lines) : ∀ (f i : Nat) (s : PSt), 
       have hin := parseInputLine_ok
       have hre := parseRenderLine_ok
       have hgl := contentLineGlue_ok
-      have hhd := headerLine_ok
+      have hhd := headerLine_ok O
       have htc := topChoice_ok lines
       have het : ∀ l, Ok (liftPy "extract_target_and_args" (extractTargetAndArgs l)) T := fun l => by
         obtain ⟨r, hr⟩ := extractTargetAndArgs_ok l; exact Ok.liftPy _ _ ⟨r, hr, trivial⟩
@@ -433,15 +433,23 @@ theorem validateArgs_ok (O : PyOracle) (ps : List (Line × PPassage)) : ∀ l, O
 
 /-- **C11, termination, whole parser**: for every source text and every behaviour of CPython's own parser, no loop of
 `parse` fails to advance — the fuel `parseText` starts from (three units per line) is never exhausted -/
-theorem parseText_no_fuel (O : PyOracle) (src : Line) : parseText O src ≠ .error .fuel := by
+theorem parseStory_ok (O : PyOracle) (src : Line) : Ok (parseStory O src) T := by
   have hc := coreLoop_ok O
   have hv := validateArgs_ok O
-  suffices hg : Ok (parseText O src) T from hg.nf
-  unfold parseText
+  unfold parseStory determineInitial
   repeat (first
     | ((with_reducible show Ok (coreLoop _ _ _ _ _) _); refine hc _ _ _ _ (by omega))
     | with_reducible exact hv _ _
     | ok_step)
+
+theorem parseText_no_fuel (O : PyOracle) (src : Line) : parseText O src ≠ .error .fuel := by
+  intro h
+  unfold parseText at h
+  split at h
+  · cases h
+  · rename_i e he
+    cases h
+    exact (parseStory_ok O src).nf he
 
 /-- **C11 for the parser model**: every text yields a story or a deliberate diagnostic (SyntaxError / ValueError) — or,
 in the model's own vocabulary, a question about Python syntax that the recorded `ast.parse` table does not answer -/
